@@ -632,15 +632,9 @@ impl Match<std::net::Ipv6Addr> for Prefix6 {
 
 impl Match<std::net::Ipv4Addr> for Prefix6 {
     fn contains(&self, ip: std::net::Ipv4Addr) -> bool {
-        match self.network().octets() {
-            // If this is a ::ffff:a.b.c.d prefix, check it against the v4 equivalent.
-            [0, 0, 0, 0, 0, 0, 0, 0, 0, 0, 0xff, 0xff, a, b, c, d] => Prefix4::new(
-                std::net::Ipv4Addr::new(a, b, c, d),
-                self.prefixlen - (128 - 32),
-            )
-            .contains(ip),
-            _ => false,
-        }
+        // An IPv4 client is the IPv4-mapped address ::ffff:a.b.c.d, check that against the prefix
+        // (this also covers prefixes shorter than /96 that contain the mapped range, like ::/0).
+        Match::<std::net::Ipv6Addr>::contains(self, ip.to_ipv6_mapped())
     }
 }
 
